@@ -136,25 +136,29 @@ def probe_boundary_tables():
     """Execute AppResponse.__init__ / __next__ and ResponseBody.__set__ on tampered values (bounded by the
     guards of c01_boundary.run_real: a tree on which a probe hangs or lets an exception escape keeps the entry of
     the unchanged code, and the check proper reports the misbehaviour with a replayable plan)."""
-    def trapped_500(plan):
+    def trapped_500(plan, unchanged):
         obs = bd.run_real(plan)
         if obs['hang'] or obs['escaped'] or not obs['starts']:
-            return True
+            return unchanged
         st = obs['starts'][-1][0]
         return isinstance(st, str) and st[:1] == '5'
     status_kinds = ['keep', 'str', 'none', 'int']
     hdr_kinds = ['bytes', 'strkey', 'strval', 'unival', 'strpair', 'triple', 'nonpair', 'intval', 'nolist']
-    st_rej = [i for i, k in enumerate(status_kinds) if trapped_500(bd.b_plan(tamper=(k, 'none')))]
-    hd_rej = [i for i, k in enumerate(hdr_kinds) if trapped_500(bd.b_plan(tamper=('keep', k)))]
-    obs = bd.run_real(bd.b_plan('gen', 'bsb', 0, 'ok', stream=1))
+    st_rej = [i for i, k in enumerate(status_kinds) if trapped_500(bd.b_plan(tamper=(k, 'none'), reads=1), k != 'keep')]
+    hd_rej = [i for i, k in enumerate(hdr_kinds) if trapped_500(bd.b_plan(tamper=('keep', k), reads=1), k != 'bytes')]
+    obs = bd.run_real(bd.b_plan('gen', 'bsb', 0, 'ok', stream=1, reads=3))
     checked = not any(not isinstance(c, bytes) for c in obs['chunks'])
     body_kinds = [('bytes', ''), ('str', ''), ('none', ''), ('list', 'bb'), ('list', 'bs'), ('tuple', 'bs'), ('gen', 'b'),
                   ('nonit', ''), ('str0', '')]
     refused = []
     for i, (sh, items) in enumerate(body_kinds):
         # streaming: nothing but ResponseBody.__set__ looks at the value before start_response
-        obs = bd.run_real(bd.b_plan(sh, items, 0, 'ok', stream=1, meth='head'))
-        st = obs['starts'][0][0] if obs['starts'] else '500'
+        obs = bd.run_real(bd.b_plan(sh, items, 0, 'ok', stream=1, meth='head', reads=1))
+        if obs['hang'] or obs['escaped'] or not obs['starts']:
+            if i in (1, 4, 8):
+                refused.append(i)
+            continue
+        st = obs['starts'][0][0]
         if not (isinstance(st, str) and st[:1] == '2'):
             refused.append(i)
     return {'chunk_checked': checked, 'status_rejected': st_rej, 'hdr_rejected': hd_rej, 'body_refused': refused}
@@ -192,7 +196,14 @@ end CpModel.Gen.C01
 def tables(ctx):
     """Finite tables of the anchored code, regenerated by executing it (lean/CpModel/Gen/PipelineTables.lean,
     lean/CpModel/Gen/C01Tables.lean)."""
-    out = dict(pc.tables(ctx))
+    res, hang = bd.guarded(pc.tables, ctx)
+    if hang:
+        # the probe request of pipeline_common.tables never came back: keep the table as it is; the check proper
+        # reports the hang with a replayable plan
+        path = os.path.join(common.LEAN, 'CpModel/Gen/PipelineTables.lean')
+        res = {'CpModel/Gen/PipelineTables.lean': open(path).read()}
+        ctx.note('pipeline tables not regenerated: %s' % hang)
+    out = dict(res)
     t = probe_boundary_tables()
     lst = lambda l: '[' + ', '.join(map(str, l)) + ']'
     out['CpModel/Gen/C01Tables.lean'] = C01_TABLES % ('true' if t['chunk_checked'] else 'false', lst(t['status_rejected']),
@@ -261,10 +272,12 @@ def leak(obs):
     if not hits:
         return None
     starts = obs['starts']
-    if starts and starts[0][2] and text.startswith(b'Unrecoverable error in the server.'):
+    errpage_mark = (pc.MARK + '-errpage').encode()
+    if starts and starts[0][2]:
+        # the only start_response call is the trapper's (exc_info): it answered after the request was released
         sig = 'traceback_leak:trapper_after_release'
-    elif hits == [pc.MARK.encode()] and b'In addition, the custom error page failed' in text \
-            and text.count(pc.MARK.encode()) == text.count((pc.MARK + '-errpage').encode()):
+    elif hits == [pc.MARK.encode()] and text.count(pc.MARK.encode()) == text.count(errpage_mark):
+        # nothing but the text of the failing error_page callable's own exception (no wording of the page compared)
         sig = 'F2:failing_error_page_callable_text'
     else:
         sig = 'traceback_leak'
@@ -310,6 +323,8 @@ def page_of_last_request(plan, obs):
 
 
 def oracle(plan, obs):
+    if obs.get('hang'):
+        return [('the application never answered (%s)' % obs['hang'], 'hang:time')]
     bad = wellformed(obs)
     if obs['escaped'] or not obs['starts']:
         return bad
@@ -522,6 +537,8 @@ def run_environ(case):
                 if not starts:
                     flag['chunk_before_start'] = True
                 chunks.append(c)
+                if len(chunks) > 10000:
+                    raise bd.Hang()
         except Exception as e:     # noqa: BLE001
             escaped = 'call/next: %s: %s' % (type(e).__name__, e)
         if it is not None and hasattr(it, 'close'):
@@ -605,16 +622,78 @@ def in_known_class(plan):
     return any(pg['errPage'] == 'cbFail' and not pg['tb'] for pg in plan['pages'])
 
 
+def run_plan(plan, app_wrapper=None):
+    """pc.run_real under the wall-clock guard: a run that does not come back is an observation."""
+    obs, hang = bd.guarded(pc.run_real, plan, app_wrapper)
+    if hang:
+        return {'hang': hang, 'j': [], 'starts': [], 'chunks': [], 'escaped': None, 'reqs': [], 'sites': [],
+                'chunk_before_start': False}
+    obs['hang'] = None
+    return obs
+
+
+def _ctype(headers):
+    if isinstance(headers, list):
+        for item in headers:
+            if isinstance(item, tuple) and len(item) == 2 and isinstance(item[0], str) and item[0].lower() == 'content-type':
+                return str(item[1]).split(';')[0].strip().lower()
+    return ''
+
+
+def body_flags_real(obs):
+    """Kind of the response entity, from structure and from markers the probes themselves put in (never from the
+    wording of CherryPy's messages and pages): the trapper's answer = a start_response call with exc_info;
+    bare_error = 500 text/plain; the default error page = an HTML entity of a 4xx/5xx response that is neither a page
+    chunk nor the output of the probe error_page callable / error_response; "the custom error page failed" = the
+    failing callable's own exception text pasted in; a traceback = Python's own header line."""
+    text = b''.join(c if isinstance(c, bytes) else repr(c).encode() for c in obs['chunks'])
+    fl = set()
+    starts = obs['starts']
+    if not text or not starts:
+        return []
+    last = starts[-1]
+    code = int(last[0][:3]) if isinstance(last[0], str) and last[0][:3].isdigit() else 0
+    if any(s[2] for s in starts):
+        fl.add('bare')
+    if not starts[0][2]:
+        first = starts[0]
+        code0 = int(first[0][:3]) if isinstance(first[0], str) and first[0][:3].isdigit() else 0
+        body0 = text if len(starts) == 1 else text      # (mid-stream: page chunks, then the bare chunk)
+        if _ctype(first[1]) == 'text/plain' and code0 == 500:
+            fl.add('bare')
+        elif pc.CB_PAGE.encode() in body0:
+            fl.add('cb')
+        elif pc.CUSTOM_ER in body0:
+            fl.add('custom')
+        elif code0 >= 400 and pc.PAGE_CHUNK not in body0 and _ctype(first[1]) == 'text/html':
+            fl.add('ep')
+            if (pc.MARK + '-errpage').encode() in body0:
+                fl.add('msg')
+    if b'Traceback (most recent call last)' in text:
+        fl.add('tb')
+    return sorted(fl)
+
+
 def observe(plan):
-    obs = pc.run_real(plan)
-    return {'j': obs['j'], 'flags': pc.body_flags_real(obs), 'fails': oracle(plan, obs), 'escaped': obs['escaped'],
+    obs = run_plan(plan)
+    return {'j': obs['j'], 'flags': body_flags_real(obs), 'fails': oracle(plan, obs), 'escaped': obs['escaped'],
             'nraise': sum(1 for s, o in obs['sites'] if o != 'ok'),
             'req_tb': obs['reqs'][-1]['show_tracebacks'] if obs['reqs'] else True,
             'status': [s[0] for s in obs['starts']]}
 
 
 def _observe_chunk(plans):
-    return [observe(p) for p in plans]
+    out, hangs = [], 0
+    for p in plans:
+        if hangs >= 3:
+            out.append({'j': [], 'flags': [], 'fails': [], 'escaped': None, 'nraise': 0, 'req_tb': True, 'status': [],
+                        'skipped': True})
+            continue
+        r = observe(p)
+        if any(sig == 'hang:time' for _, sig in r['fails']):
+            hangs += 1
+        out.append(r)
+    return out
 
 
 def check_plans(ctx, plans, compare=True, label='gen'):
@@ -642,6 +721,7 @@ def check_plans(ctx, plans, compare=True, label='gen'):
             for k, r in enumerate(part):
                 results[ci + k * n] = r
     shrunk = 0
+    hangs = 0
     for idx, (plan, res) in enumerate(zip(plans, results)):
         hd = plan['pages'][plan['start']]['handler'] if plan['start'] < len(plan['pages']) else ['notfound', 'bytes']
         ctx.case({'plan': lines[idx]}, nontrivial=(res['nraise'] > 0 or hd[1] != 'bytes'), key=lines[idx])
@@ -660,14 +740,19 @@ def check_plans(ctx, plans, compare=True, label='gen'):
                 continue
             seen.add(sig)
             case = {'plan': plan}
-            if ctx.match_known(sig) is None and shrunk < 3:
+            if sig == 'hang:time':
+                hangs += 1
+            if ctx.match_known(sig) is None and shrunk < 3 and sig != 'hang:time':
                 shrunk += 1
-                small = pc.shrink_plan(plan, lambda c: any(s == sig for _, s in oracle(c, pc.run_real(c))))
-                fs = [w for w, s in oracle(small, pc.run_real(small)) if s == sig]
+                small = pc.shrink_plan(plan, lambda c: any(s == sig for _, s in oracle(c, run_plan(c))))
+                fs = [w for w, s in oracle(small, run_plan(small)) if s == sig]
                 if fs:
                     case, what = {'plan': small, 'shrunk_from': lines[idx]}, fs[0]
             ctx.oracle_fail(case, what, sig)
-        if model is not None:
+        if hangs >= 3:
+            ctx.note('stopped after %d runs that never answered' % hangs)
+            return
+        if model is not None and not res.get('skipped'):
             ctx.compared()
             m = pc.parse_model(model[idx])
             if m['fuel']:
@@ -693,7 +778,17 @@ def observe_b(plan):
 
 
 def _observe_b_chunk(plans):
-    return [observe_b(p) for p in plans]
+    out, hangs = [], 0
+    for p in plans:
+        if hangs >= 3:
+            out.append({'fails': [], 'canon': {}, 'status': [], 'nreq': 0, 'hang': None, 'escaped': None, 'nonbytes': False,
+                        'skipped': True})
+            continue
+        r = observe_b(p)
+        if r['hang'] and r['hang'].startswith('time'):
+            hangs += 1
+        out.append(r)
+    return out
 
 
 def _b_nontrivial(plan):
@@ -752,7 +847,7 @@ def check_bplans(ctx, plans, compare=True, label='boundary'):
             case = {'bplan': plan}
             if sig.startswith('hang'):
                 hangs += 1
-            if ctx.match_known(sig) is None and shrunk < 3 and hangs <= 3:
+            if ctx.match_known(sig) is None and shrunk < 3 and hangs <= 3 and sig != 'hang:time':
                 shrunk += 1
                 small = bd.shrink(plan, lambda c: any(s2 == sig for _, s2 in oracle_b(c, bd.run_real(c))))
                 fs = [w for w, s2 in oracle_b(small, bd.run_real(small)) if s2 == sig]
@@ -762,7 +857,7 @@ def check_bplans(ctx, plans, compare=True, label='boundary'):
         if hangs > 3:
             ctx.note('stopped after %d runs that never answered' % hangs)
             return
-        if idx in mdl:
+        if idx in mdl and not res.get('skipped'):
             ctx.compared()
             if mdl[idx] == 'bad-op':
                 raise common.HarnessError('the driver does not understand %s' % lines[idx])
@@ -783,9 +878,18 @@ def boundary_plans(ctx, n_b, n_r):
 
 
 def check_environs(ctx, n):
+    hangs = 0
     for _ in range(n):
         case = gen_environ(ctx.rng)
-        obs = run_environ(case)
+        obs, hang = bd.guarded(run_environ, case)
+        if hang:
+            hangs += 1
+            ctx.oracle_fail({'environ': {k: v for k, v in case['env'].items() if isinstance(v, (str, tuple, bool))},
+                             'body_hex': case['body'].hex(), 'tb': case['tb']},
+                            'the application never answered (%s)' % hang, 'hang:time')
+            if hangs >= 3:
+                return
+            continue
         key = repr(sorted((k, v) for k, v in case['env'].items() if isinstance(v, str))) + repr(case['body'][:40])
         ctx.case({'environ': {k: v for k, v in case['env'].items() if isinstance(v, str)}, 'tb': case['tb']},
                  nontrivial=True, key=key)
@@ -809,10 +913,14 @@ def check_validator(ctx, n):
             plan = pc.gen_plan(ctx.rng, focus=(ctx.rng.randrange(8) if ctx.rng.random() < 0.3 else None))
             plan['closes'] = 1          # the validator insists on exactly one close()
             plan['reads'] = None
-            obs = pc.run_real(plan, app_wrapper=validator)
+            obs = run_plan(plan, app_wrapper=validator)
             line = pc.plan_line(plan)
             ctx.case({'plan': line, 'validator': True}, nontrivial=True, key='validator ' + line)
             ctx.count('stream:validator')
+            if obs.get('hang'):
+                ctx.oracle_fail({'plan': plan, 'validator': True}, 'the application never answered (%s)' % obs['hang'],
+                                'hang:time')
+                return
             if obs['escaped'] and 'AssertionError' in obs['escaped']:
                 ctx.oracle_fail({'plan': plan, 'validator': True},
                                 'wsgiref.validate complains: %s' % obs['escaped'][:300],
@@ -854,6 +962,12 @@ def run(ctx):
         cov.report(ctx)
 
 
+def _stop(ctx):
+    """A run that never answered was found (each further one costs the wall-clock guard), or there are plenty of
+    failures already: the remaining streams are skipped."""
+    return len(ctx.oracle_failures) >= 20 or any((sig or '').startswith('hang:time') for _, _, sig in ctx.oracle_failures)
+
+
 def _run(ctx):
     for e in ctx.known:
         if e.get('status') == 'known':
@@ -864,9 +978,13 @@ def _run(ctx):
     check_plans(ctx, corpus_plans(), label='corpus')
     check_bplans(ctx, [c['bplan'] for c in _corpus_cases() if 'bplan' in c], label='corpus')
     check_bplans(ctx, boundary_plans(ctx, ctx.budget(1200, 60000), ctx.budget(800, 40000)), label='boundary')
+    if _stop(ctx):
+        return
     singles = single_fault_plans(ctx.quick())
     check_plans(ctx, singles, label='single-fault')
     ctx.extra['exhaustive_single_fault_placements'] = len(singles)
+    if _stop(ctx):
+        return
     n = ctx.budget(2500, 120000)
     plans = []
     while len(plans) < n:
@@ -874,7 +992,11 @@ def _run(ctx):
         if not in_known_class(p):
             plans.append(p)
     check_plans(ctx, plans, label='random')
+    if _stop(ctx):
+        return
     check_environs(ctx, ctx.budget(1500, 40000))
+    if _stop(ctx):
+        return
     check_validator(ctx, ctx.budget(500, 20000))
 
 
@@ -905,8 +1027,12 @@ def replay(ctx, case):
         c['env'].setdefault('wsgi.version', (1, 0))
         for k in ('wsgi.multithread', 'wsgi.multiprocess', 'wsgi.run_once'):
             c['env'].setdefault(k, False)
-        obs = run_environ(c)
+        obs, hang = bd.guarded(run_environ, c)
         print('environ:', c['env'])
+        if hang:
+            print('impl   : never answered (%s)' % hang)
+            ctx.oracle_fail(case, 'the application never answered (%s)' % hang, 'hang:time')
+            return
         print('impl   :', [(s[0], s[2]) for s in obs['starts']], obs['escaped'], [x[:120] for x in obs['chunks'][:2]])
         for what, sig in oracle_environ(c, obs):
             print('oracle :', sig, '-', what)
@@ -934,16 +1060,16 @@ def replay(ctx, case):
         from wsgiref.validate import validator
         with warnings.catch_warnings():
             warnings.simplefilter('ignore')
-            obs = pc.run_real(plan, app_wrapper=validator)
+            obs = run_plan(plan, app_wrapper=validator)
         print('plan   :', pc.plan_line(plan))
         print('impl   : (under wsgiref.validate) escaped=%s' % obs['escaped'])
         if obs['escaped']:
             ctx.oracle_fail(case, 'under wsgiref.validate: %s' % obs['escaped'][:300], 'wsgi_validator')
         return
-    obs = pc.run_real(plan)
+    obs = run_plan(plan)
     line = pc.plan_line(plan)
     print('plan   :', line)
-    print('impl   :', ','.join(obs['j']), pc.body_flags_real(obs), 'escaped=%s' % obs['escaped'])
+    print('impl   :', ','.join(obs['j']), body_flags_real(obs), 'escaped=%s' % obs['escaped'])
     m = ctx.model([line])
     if m:
         mm = pc.parse_model(m[0])
